@@ -132,6 +132,13 @@ def corpus():
         sync([(1, False)], [0, 1], []), {"op": "pop", "slot": 0}, {"op": "pop", "slot": 0}, {"op": "pickone", "slot": 1},
         sync([], [0, 1], []), {"op": "pop", "slot": 0}, {"op": "pickone", "slot": 1}, {"op": "delete"}, {"op": "delete"},
         {"op": "pop", "slot": 0}, {"op": "pickone", "slot": 1}, REQ(0)]})
+    # a stale queue item (a superseded version of the object) is delivered after the current version was synced: the
+    # server it lists enabled stays disabled, the server it still lists stays removed, no traffic and no probe for them
+    cs.append({"kind": "hist", "ops": [
+        sync([(0, False), (1, False)]), P(0), P(1), REQ(2),
+        sync([(0, True)]), dict(sync([(0, False), (1, False)]), op="redeliver"), T(0), T(1), REQ(2), REQ(2),
+        dict(sync([(0, False), (1, False)]), op="redeliver"), P(0), P(1), REQ(2), {"op": "delete"},
+        dict(sync([(0, False), (1, False)]), op="redeliver"), REQ(2), T(0)]})
     # TriggerHealthCheck on a disabled endpoint: the trigger waits for the next enable
     cs.append({"kind": "hist", "ops": [
         sync([(0, True)]), {"op": "trigger", "ep": 0}, T(0), REQ(2), sync([(0, False)]), P(0), P(0), REQ(2),
@@ -184,6 +191,9 @@ def gen_hist(rng, maxlen=40):
             else:
                 servers = rand_spec(rng)
             ops.append(sync(servers, s0, s1))
+            if rng.chance(1, 3):      # a superseded version arrives late
+                old = rng.choice([x for x in ops if x["op"] == "sync"][:-1] or [ops[0]])
+                ops.append(dict(old, op="redeliver"))
         elif k < 30:
             ops.append(T(anyep()))
         elif k < 58:
@@ -299,6 +309,22 @@ def coq_ep(e):
         cbool(e["chan"] != 0), cZ(e["held"]), cZ(e["hits"]), cZ(e["proxied"]), clist(ticks))
 
 
+def latest_ops(ops):
+    """a redelivered stale queue item must have the effect of re-syncing the LATEST stored object
+    (or of the delete path when the object is gone): that is what the model and the spec are given"""
+    out, last = [], None
+    for o in ops:
+        if o["op"] == "sync":
+            last = o
+        elif o["op"] == "delete":
+            last = None
+        if o["op"] == "redeliver":
+            out.append(dict(last, op="sync") if last is not None else {"op": "delete"})
+        else:
+            out.append(o)
+    return out
+
+
 def coq_case(case, obs):
     try:
         if "panic" in obs:
@@ -311,7 +337,7 @@ def coq_case(case, obs):
         if len(steps) != len(case["ops"]):
             return "CBroken"
         tr = []
-        for o, s in zip(case["ops"], steps):
+        for o, s in zip(latest_ops(case["ops"]), steps):
             ob = "(mkObs %s %s %s %s)" % (coq_result(o, s), clist([coq_ep(e) for e in s["eps"]]),
                                           cZ(s["nworkers"]), cZ(s["nprobing"]))
             tr.append(cpair(coq_op(o), ob))
